@@ -245,4 +245,89 @@ def nesting : List (String × List NestPair) :=
   [("zero_migration", zeroMigration), ("zero_epoch", zeroEpoch), ("equal_rates", equalRates),
    ("zero_selection", zeroSelection), ("equal_selection", equalSelection), ("composite", composite)]
 
+/-- model `name` at the parameter vector `args` is the model with its populations relabelled by `perm` (new population `i` =
+    old population `perm[i]`, 0-based) -/
+structure PermPair where
+  name : Name
+  perm : List Nat
+  args : List Expr
+  deriving Repr, DecidableEq
+
+/-- **every model of the table that has a symmetric partner under a non-trivial permutation of its population labels, with
+    every such permutation** (67 entries: the 33 two-population models of `symmetric` under `[1,0]`, and 17 three-population
+    models — under `[0,2,1]` (the two daughters of the second split) for the `split_*`/`ancmig_*`/`out_of_africa` family, under
+    all five non-trivial permutations for the simultaneous splits without or with all-pairs migration, under the one
+    reflection that fixes the migration path for the `*_adjacent*` simultaneous splits).  Found by relabelling the trace of
+    each model by each permutation (Model/ModelPerm.lean) and matching the result against the model's own trace up to a
+    renaming of its parameters; the models that are not listed have no such renaming (asymmetric migration paths,
+    a fraction `s`/`1-s` or `f` tied to one label, selection in one population only). -/
+def permSymmetric : List PermPair := [
+  ⟨(nm! "Demographics2D.snm_2d"), [1, 0], []⟩,
+  ⟨(nm! "Demographics2D.bottlegrowth_2d"), [1, 0], [.param (nm! "nuB"), .param (nm! "nuF"), .param (nm! "T")]⟩,
+  ⟨(nm! "Demographics2D.bottlegrowth_split"), [1, 0], [.param (nm! "nuB"), .param (nm! "nuF"), .param (nm! "T"), .param (nm! "Ts")]⟩,
+  ⟨(nm! "Demographics2D.bottlegrowth_split_mig"), [1, 0], [.param (nm! "nuB"), .param (nm! "nuF"), .param (nm! "m"), .param (nm! "T"), .param (nm! "Ts")]⟩,
+  ⟨(nm! "Demographics2D.split_mig"), [1, 0], [.param (nm! "nu2"), .param (nm! "nu1"), .param (nm! "T"), .param (nm! "m")]⟩,
+  ⟨(nm! "Demographics2D.split_asym_mig"), [1, 0], [.param (nm! "nu2"), .param (nm! "nu1"), .param (nm! "T"), .param (nm! "m21"), .param (nm! "m12")]⟩,
+  ⟨(nm! "Demographics2D.split_delay_mig"), [1, 0], [.param (nm! "nu2"), .param (nm! "nu1"), .param (nm! "Tpre"), .param (nm! "Tmig"), .param (nm! "m21"), .param (nm! "m12")]⟩,
+  ⟨(nm! "Demographics3D.out_of_africa"), [0, 2, 1], [.param (nm! "nuAf"), .param (nm! "nuB"), .param (nm! "nuAs0"), .param (nm! "nuAs"), .param (nm! "nuEu0"), .param (nm! "nuEu"), .param (nm! "mAfB"), .param (nm! "mAfAs"), .param (nm! "mAfEu"), .param (nm! "mEuAs"), .param (nm! "TAf"), .param (nm! "TB"), .param (nm! "TEuAs")]⟩,
+  ⟨(nm! "portik_models_2d.no_mig"), [1, 0], [.param (nm! "nu2"), .param (nm! "nu1"), .param (nm! "T")]⟩,
+  ⟨(nm! "portik_models_2d.sym_mig"), [1, 0], [.param (nm! "nu2"), .param (nm! "nu1"), .param (nm! "m"), .param (nm! "T")]⟩,
+  ⟨(nm! "portik_models_2d.asym_mig"), [1, 0], [.param (nm! "nu2"), .param (nm! "nu1"), .param (nm! "m21"), .param (nm! "m12"), .param (nm! "T")]⟩,
+  ⟨(nm! "portik_models_2d.anc_sym_mig"), [1, 0], [.param (nm! "nu2"), .param (nm! "nu1"), .param (nm! "m"), .param (nm! "T1"), .param (nm! "T2")]⟩,
+  ⟨(nm! "portik_models_2d.anc_asym_mig"), [1, 0], [.param (nm! "nu2"), .param (nm! "nu1"), .param (nm! "m21"), .param (nm! "m12"), .param (nm! "T1"), .param (nm! "T2")]⟩,
+  ⟨(nm! "portik_models_2d.sec_contact_sym_mig"), [1, 0], [.param (nm! "nu2"), .param (nm! "nu1"), .param (nm! "m"), .param (nm! "T1"), .param (nm! "T2")]⟩,
+  ⟨(nm! "portik_models_2d.sec_contact_asym_mig"), [1, 0], [.param (nm! "nu2"), .param (nm! "nu1"), .param (nm! "m21"), .param (nm! "m12"), .param (nm! "T1"), .param (nm! "T2")]⟩,
+  ⟨(nm! "portik_models_2d.no_mig_size"), [1, 0], [.param (nm! "nu2a"), .param (nm! "nu1a"), .param (nm! "nu2b"), .param (nm! "nu1b"), .param (nm! "T1"), .param (nm! "T2")]⟩,
+  ⟨(nm! "portik_models_2d.sym_mig_size"), [1, 0], [.param (nm! "nu2a"), .param (nm! "nu1a"), .param (nm! "nu2b"), .param (nm! "nu1b"), .param (nm! "m"), .param (nm! "T1"), .param (nm! "T2")]⟩,
+  ⟨(nm! "portik_models_2d.asym_mig_size"), [1, 0], [.param (nm! "nu2a"), .param (nm! "nu1a"), .param (nm! "nu2b"), .param (nm! "nu1b"), .param (nm! "m21"), .param (nm! "m12"), .param (nm! "T1"), .param (nm! "T2")]⟩,
+  ⟨(nm! "portik_models_2d.anc_sym_mig_size"), [1, 0], [.param (nm! "nu2a"), .param (nm! "nu1a"), .param (nm! "nu2b"), .param (nm! "nu1b"), .param (nm! "m"), .param (nm! "T1"), .param (nm! "T2")]⟩,
+  ⟨(nm! "portik_models_2d.anc_asym_mig_size"), [1, 0], [.param (nm! "nu2a"), .param (nm! "nu1a"), .param (nm! "nu2b"), .param (nm! "nu1b"), .param (nm! "m21"), .param (nm! "m12"), .param (nm! "T1"), .param (nm! "T2")]⟩,
+  ⟨(nm! "portik_models_2d.sec_contact_sym_mig_size"), [1, 0], [.param (nm! "nu2a"), .param (nm! "nu1a"), .param (nm! "nu2b"), .param (nm! "nu1b"), .param (nm! "m"), .param (nm! "T1"), .param (nm! "T2")]⟩,
+  ⟨(nm! "portik_models_2d.sec_contact_asym_mig_size"), [1, 0], [.param (nm! "nu2a"), .param (nm! "nu1a"), .param (nm! "nu2b"), .param (nm! "nu1b"), .param (nm! "m21"), .param (nm! "m12"), .param (nm! "T1"), .param (nm! "T2")]⟩,
+  ⟨(nm! "portik_models_2d.sym_mig_twoepoch"), [1, 0], [.param (nm! "nu2"), .param (nm! "nu1"), .param (nm! "m1"), .param (nm! "m2"), .param (nm! "T1"), .param (nm! "T2")]⟩,
+  ⟨(nm! "portik_models_2d.asym_mig_twoepoch"), [1, 0], [.param (nm! "nu2"), .param (nm! "nu1"), .param (nm! "m21a"), .param (nm! "m12a"), .param (nm! "m21b"), .param (nm! "m12b"), .param (nm! "T1"), .param (nm! "T2")]⟩,
+  ⟨(nm! "portik_models_2d.sec_contact_sym_mig_three_epoch"), [1, 0], [.param (nm! "nu2"), .param (nm! "nu1"), .param (nm! "m"), .param (nm! "T1"), .param (nm! "T2"), .param (nm! "T3")]⟩,
+  ⟨(nm! "portik_models_2d.sec_contact_asym_mig_three_epoch"), [1, 0], [.param (nm! "nu2"), .param (nm! "nu1"), .param (nm! "m21"), .param (nm! "m12"), .param (nm! "T1"), .param (nm! "T2")]⟩,
+  ⟨(nm! "portik_models_2d.sec_contact_sym_mig_size_three_epoch"), [1, 0], [.param (nm! "nu2a"), .param (nm! "nu1a"), .param (nm! "nu2b"), .param (nm! "nu1b"), .param (nm! "m"), .param (nm! "T1"), .param (nm! "T2"), .param (nm! "T3")]⟩,
+  ⟨(nm! "portik_models_2d.sec_contact_asym_mig_size_three_epoch"), [1, 0], [.param (nm! "nu2a"), .param (nm! "nu1a"), .param (nm! "nu2b"), .param (nm! "nu1b"), .param (nm! "m21"), .param (nm! "m12"), .param (nm! "T1"), .param (nm! "T2"), .param (nm! "T3")]⟩,
+  ⟨(nm! "portik_models_3d.split_nomig"), [0, 2, 1], [.param (nm! "nu1"), .param (nm! "nuA"), .param (nm! "nu3"), .param (nm! "nu2"), .param (nm! "T1"), .param (nm! "T2")]⟩,
+  ⟨(nm! "portik_models_3d.split_symmig_all"), [0, 2, 1], [.param (nm! "nu1"), .param (nm! "nuA"), .param (nm! "nu3"), .param (nm! "nu2"), .param (nm! "mA"), .param (nm! "m3"), .param (nm! "m2"), .param (nm! "m1"), .param (nm! "T1"), .param (nm! "T2")]⟩,
+  ⟨(nm! "portik_models_3d.ancmig_adj_3"), [0, 2, 1], [.param (nm! "nu1"), .param (nm! "nuA"), .param (nm! "nu3"), .param (nm! "nu2"), .param (nm! "mA"), .param (nm! "T1a"), .param (nm! "T1b"), .param (nm! "T2")]⟩,
+  ⟨(nm! "portik_models_3d.ancmig_adj_2"), [0, 2, 1], [.param (nm! "nu1"), .param (nm! "nuA"), .param (nm! "nu3"), .param (nm! "nu2"), .param (nm! "mA"), .param (nm! "T1"), .param (nm! "T2")]⟩,
+  ⟨(nm! "portik_models_3d.sim_split_no_mig"), [0, 2, 1], [.param (nm! "nu1"), .param (nm! "nu3"), .param (nm! "nu2"), .param (nm! "T1")]⟩,
+  ⟨(nm! "portik_models_3d.sim_split_no_mig"), [1, 0, 2], [.param (nm! "nu2"), .param (nm! "nu1"), .param (nm! "nu3"), .param (nm! "T1")]⟩,
+  ⟨(nm! "portik_models_3d.sim_split_no_mig"), [1, 2, 0], [.param (nm! "nu2"), .param (nm! "nu3"), .param (nm! "nu1"), .param (nm! "T1")]⟩,
+  ⟨(nm! "portik_models_3d.sim_split_no_mig"), [2, 0, 1], [.param (nm! "nu3"), .param (nm! "nu1"), .param (nm! "nu2"), .param (nm! "T1")]⟩,
+  ⟨(nm! "portik_models_3d.sim_split_no_mig"), [2, 1, 0], [.param (nm! "nu3"), .param (nm! "nu2"), .param (nm! "nu1"), .param (nm! "T1")]⟩,
+  ⟨(nm! "portik_models_3d.sim_split_no_mig_size"), [0, 2, 1], [.param (nm! "nu1a"), .param (nm! "nu3a"), .param (nm! "nu2a"), .param (nm! "nu1b"), .param (nm! "nu3b"), .param (nm! "nu2b"), .param (nm! "T1"), .param (nm! "T2")]⟩,
+  ⟨(nm! "portik_models_3d.sim_split_no_mig_size"), [1, 0, 2], [.param (nm! "nu2a"), .param (nm! "nu1a"), .param (nm! "nu3a"), .param (nm! "nu2b"), .param (nm! "nu1b"), .param (nm! "nu3b"), .param (nm! "T1"), .param (nm! "T2")]⟩,
+  ⟨(nm! "portik_models_3d.sim_split_no_mig_size"), [1, 2, 0], [.param (nm! "nu2a"), .param (nm! "nu3a"), .param (nm! "nu1a"), .param (nm! "nu2b"), .param (nm! "nu3b"), .param (nm! "nu1b"), .param (nm! "T1"), .param (nm! "T2")]⟩,
+  ⟨(nm! "portik_models_3d.sim_split_no_mig_size"), [2, 0, 1], [.param (nm! "nu3a"), .param (nm! "nu1a"), .param (nm! "nu2a"), .param (nm! "nu3b"), .param (nm! "nu1b"), .param (nm! "nu2b"), .param (nm! "T1"), .param (nm! "T2")]⟩,
+  ⟨(nm! "portik_models_3d.sim_split_no_mig_size"), [2, 1, 0], [.param (nm! "nu3a"), .param (nm! "nu2a"), .param (nm! "nu1a"), .param (nm! "nu3b"), .param (nm! "nu2b"), .param (nm! "nu1b"), .param (nm! "T1"), .param (nm! "T2")]⟩,
+  ⟨(nm! "portik_models_3d.sim_split_sym_mig_all"), [0, 2, 1], [.param (nm! "nu1"), .param (nm! "nu3"), .param (nm! "nu2"), .param (nm! "m3"), .param (nm! "m2"), .param (nm! "m1"), .param (nm! "T1")]⟩,
+  ⟨(nm! "portik_models_3d.sim_split_sym_mig_all"), [1, 0, 2], [.param (nm! "nu2"), .param (nm! "nu1"), .param (nm! "nu3"), .param (nm! "m1"), .param (nm! "m3"), .param (nm! "m2"), .param (nm! "T1")]⟩,
+  ⟨(nm! "portik_models_3d.sim_split_sym_mig_all"), [1, 2, 0], [.param (nm! "nu2"), .param (nm! "nu3"), .param (nm! "nu1"), .param (nm! "m2"), .param (nm! "m3"), .param (nm! "m1"), .param (nm! "T1")]⟩,
+  ⟨(nm! "portik_models_3d.sim_split_sym_mig_all"), [2, 0, 1], [.param (nm! "nu3"), .param (nm! "nu1"), .param (nm! "nu2"), .param (nm! "m3"), .param (nm! "m1"), .param (nm! "m2"), .param (nm! "T1")]⟩,
+  ⟨(nm! "portik_models_3d.sim_split_sym_mig_all"), [2, 1, 0], [.param (nm! "nu3"), .param (nm! "nu2"), .param (nm! "nu1"), .param (nm! "m2"), .param (nm! "m1"), .param (nm! "m3"), .param (nm! "T1")]⟩,
+  ⟨(nm! "portik_models_3d.sim_split_sym_mig_adjacent"), [2, 1, 0], [.param (nm! "nu3"), .param (nm! "nu2"), .param (nm! "nu1"), .param (nm! "m2"), .param (nm! "m1"), .param (nm! "T1")]⟩,
+  ⟨(nm! "portik_models_3d.sim_split_refugia_sym_mig_all"), [0, 2, 1], [.param (nm! "nu1"), .param (nm! "nu3"), .param (nm! "nu2"), .param (nm! "m3"), .param (nm! "m2"), .param (nm! "m1"), .param (nm! "T1"), .param (nm! "T2")]⟩,
+  ⟨(nm! "portik_models_3d.sim_split_refugia_sym_mig_all"), [1, 0, 2], [.param (nm! "nu2"), .param (nm! "nu1"), .param (nm! "nu3"), .param (nm! "m1"), .param (nm! "m3"), .param (nm! "m2"), .param (nm! "T1"), .param (nm! "T2")]⟩,
+  ⟨(nm! "portik_models_3d.sim_split_refugia_sym_mig_all"), [1, 2, 0], [.param (nm! "nu2"), .param (nm! "nu3"), .param (nm! "nu1"), .param (nm! "m2"), .param (nm! "m3"), .param (nm! "m1"), .param (nm! "T1"), .param (nm! "T2")]⟩,
+  ⟨(nm! "portik_models_3d.sim_split_refugia_sym_mig_all"), [2, 0, 1], [.param (nm! "nu3"), .param (nm! "nu1"), .param (nm! "nu2"), .param (nm! "m3"), .param (nm! "m1"), .param (nm! "m2"), .param (nm! "T1"), .param (nm! "T2")]⟩,
+  ⟨(nm! "portik_models_3d.sim_split_refugia_sym_mig_all"), [2, 1, 0], [.param (nm! "nu3"), .param (nm! "nu2"), .param (nm! "nu1"), .param (nm! "m2"), .param (nm! "m1"), .param (nm! "m3"), .param (nm! "T1"), .param (nm! "T2")]⟩,
+  ⟨(nm! "portik_models_3d.sim_split_refugia_sym_mig_adjacent"), [2, 1, 0], [.param (nm! "nu3"), .param (nm! "nu2"), .param (nm! "nu1"), .param (nm! "m2"), .param (nm! "m1"), .param (nm! "T1"), .param (nm! "T2")]⟩,
+  ⟨(nm! "portik_models_3d.split_nomig_size"), [0, 2, 1], [.param (nm! "nu1a"), .param (nm! "nuA"), .param (nm! "nu3a"), .param (nm! "nu2a"), .param (nm! "nu1b"), .param (nm! "nu3b"), .param (nm! "nu2b"), .param (nm! "T1"), .param (nm! "T2"), .param (nm! "T3")]⟩,
+  ⟨(nm! "portik_models_3d.ancmig_2_size"), [0, 2, 1], [.param (nm! "nu1a"), .param (nm! "nuA"), .param (nm! "nu3a"), .param (nm! "nu2a"), .param (nm! "nu1b"), .param (nm! "nu3b"), .param (nm! "nu2b"), .param (nm! "mA"), .param (nm! "T1"), .param (nm! "T2"), .param (nm! "T3")]⟩,
+  ⟨(nm! "portik_models_3d.sim_split_refugia_sym_mig_adjacent_size"), [2, 1, 0], [.param (nm! "nu3a"), .param (nm! "nu2a"), .param (nm! "nu1a"), .param (nm! "nu3b"), .param (nm! "nu2b"), .param (nm! "nu1b"), .param (nm! "m2"), .param (nm! "m1"), .param (nm! "T1"), .param (nm! "T2"), .param (nm! "T3")]⟩,
+  ⟨(nm! "portik_models_3d.sim_split_sym_mig_adjacent_var"), [1, 0, 2], [.param (nm! "nu2"), .param (nm! "nu1"), .param (nm! "nu3"), .param (nm! "m3"), .param (nm! "m2"), .param (nm! "T1")]⟩,
+  ⟨(nm! "portik_models_3d.sim_split_uni_mig_adjacent_var"), [1, 0, 2], [.param (nm! "nu2"), .param (nm! "nu1"), .param (nm! "nu3"), .param (nm! "m31"), .param (nm! "m32"), .param (nm! "T1")]⟩,
+  ⟨(nm! "portik_models_3d.sim_split_refugia_sym_mig_adjacent_var"), [1, 0, 2], [.param (nm! "nu2"), .param (nm! "nu1"), .param (nm! "nu3"), .param (nm! "m3"), .param (nm! "m2"), .param (nm! "T1"), .param (nm! "T2")]⟩,
+  ⟨(nm! "portik_models_3d.sim_split_refugia_uni_mig_adjacent_var"), [1, 0, 2], [.param (nm! "nu2"), .param (nm! "nu1"), .param (nm! "nu3"), .param (nm! "m31"), .param (nm! "m32"), .param (nm! "T1"), .param (nm! "T2")]⟩,
+  ⟨(nm! "DemogSelModels.split_mig_sel_single_gamma"), [1, 0], [.param (nm! "nu2"), .param (nm! "nu1"), .param (nm! "T"), .param (nm! "m"), .param (nm! "gamma")]⟩,
+  ⟨(nm! "DemogSelModels.split_asym_mig_sel_single_gamma"), [1, 0], [.param (nm! "nu2"), .param (nm! "nu1"), .param (nm! "T"), .param (nm! "m21"), .param (nm! "m12"), .param (nm! "gamma")]⟩,
+  ⟨(nm! "DemogSelModels.split_delay_mig_sel_single_gamma"), [1, 0], [.param (nm! "nu2"), .param (nm! "nu1"), .param (nm! "Tpre"), .param (nm! "Tmig"), .param (nm! "m21"), .param (nm! "m12"), .param (nm! "gamma")]⟩,
+  ⟨(nm! "DemogSelModels.bottlegrowth_2d_sel_single_gamma"), [1, 0], [.param (nm! "nuB"), .param (nm! "nuF"), .param (nm! "T"), .param (nm! "gamma")]⟩,
+  ⟨(nm! "DemogSelModels.bottlegrowth_split_sel_single_gamma"), [1, 0], [.param (nm! "nuB"), .param (nm! "nuF"), .param (nm! "T"), .param (nm! "Ts"), .param (nm! "gamma")]⟩,
+  ⟨(nm! "DemogSelModels.bottlegrowth_split_mig_sel_single_gamma"), [1, 0], [.param (nm! "nuB"), .param (nm! "nuF"), .param (nm! "m"), .param (nm! "T"), .param (nm! "Ts"), .param (nm! "gamma")]⟩]
+
 end DadiVerif.ModelDSL.Pairs
